@@ -64,7 +64,8 @@ fn main() {
                             let before = u.serialize().unwrap().to_vec();
                             let mb = dump_msk(&m);
                             let ok = cc.refresh_usk(&mut m, &mut u, keep).is_ok();
-                            if ok { "ACCEPT".to_string() } else {
+                            // same=1: the key as PARSED re-serializes to exactly the bytes offered (the reader normalised nothing away)
+                            if ok { format!("ACCEPT same={}", (before == tb) as u8) } else {
                                 format!("REJECT u={} m={}", (u.serialize().unwrap().to_vec() == before) as u8, (dump_msk(&m) == mb) as u8) }
                         }
                     }
